@@ -8,6 +8,20 @@ CTL_NOTE = ("Trusted: Lean kernel (axioms propext, Classical.choice, Quot.sound 
             "by the K-ctl correspondence (real async_launch::launch driven by scripted completion orders, outcomes, bursts, Terminate positions, "
             "abort-honouring/ignoring evaluations); tokio/futures scheduling itself is not modelled - an event is 'the select! loop takes this result'.")
 TEXT = {
+    "C02": {
+        "text": "Theorems C02_member / C02_min1 / C02_nonempty1 over the controller+algorithm-core model, for every event list: the reported best-seen was handed out as some individual, has exactly sample-size accepted results "
+                "and its objective is their summary; at sample size 1 it is a minimum over all accepted evaluations (eviction at the population cap, rejections, completion order and termination cause included) and a run with an accepted "
+                "evaluation never ends with NoIndividuals. Proof: invariant run_popInv (sorted population, ids, stored samples = accepted results, head = minimum of the history). The model is compared with the real controller/core on "
+                "generated schedules incl. long histories beyond the cap of 100; the driver also checks the report against the minimum of the harness's own log.",
+        "design_ref": "7 (C02), 4 (L5, L6)", "note": CTL_NOTE + " Float arithmetic: only FL-mean1 is assumed; the mean for sample size > 1 is an observed value.",
+        "technique": "Lean 4 invariant proof (ranked population with eviction) over all event sequences + differential correspondence",
+    },
+    "C08": {
+        "text": "Theorems C08_seeds / C08_same / C08_count / C08_ids / C08_first over the controller+core model, for every event list: seeds are exactly 0,1,2,..; one id always carries one parameter set; an id is handed out at most "
+                "sample-size times; ids in the population and in flight are pairwise distinct; the first hand-out is (seed 0, id 0, initial value). The driver checks the same predicates on what the real controller did.",
+        "design_ref": "7 (C08)", "note": CTL_NOTE,
+        "technique": "Lean 4 invariant proof over all event sequences + differential correspondence",
+    },
     "C04": {
         "text": "Theorems C04_*: in the controller model, for every event list: taking the abort request only latches the flag and broadcasts; once latched nothing is ever started and "
                 "the broadcast is not repeated; after the return nothing happens; the step that reaches the target returns in that step with a best <= target and drops what is in flight; "
